@@ -207,6 +207,28 @@ def has_date(F, t):
 TIME_KINDS = ["hour", "minute", "second", "millisecond"]
 
 
+def out_of_domain(case):
+    """The property quantifies over periods s <= e GIVEN AT THE TEMPLATE'S RESOLUTION.  Returns a reason when
+    (s, e) is not exactly representable by the start resp. end fields of the template (e.g. µs given, ms
+    written), else None.  Such cases are counted, compared model-vs-code as a diagnostic only, never a violation."""
+    s, e = from_us(case["s"]), from_us(case["e"])
+    S = {t[1] for t in case["toks"] if t[0] == "T"}
+    E = {t[1] for t in case["toks"] if t[0] == "E"}
+    if s > e:
+        return "end-before-start"
+    date = lambda F: ("year" in F or "year2" in F) and (("month" in F and "day" in F) or "doy" in F)
+    if S and date(S) and s != trunc(s, S):
+        return "start-not-at-resolution"
+    if E:
+        if date(E):
+            if e != trunc(e, E):
+                return "end-not-at-resolution"
+        elif E <= set(ALL_TIME):
+            if e != trunc(e, E | S):
+                return "end-not-at-resolution"
+    return None
+
+
 def expected(case):
     """The statement's case split.  Returns dict with the keys that the property claims:
     fmt ('ok', name) | ('err', enum); caps; start; end; attrs; info_err"""
@@ -242,6 +264,8 @@ def expected(case):
         return exp
     if s.year < 1000 or e.year < 1000 or s > e:
         return exp                              # outside the stated ranges: no claim
+    if out_of_domain(case):
+        return exp                              # (s, e) not at the template's resolution: outside the quantifier
     name, caps = instantiate(fmt_toks, s, e, eff_fill)
     if not rendered:
         exp["fmt"] = ("ok", name)
@@ -894,7 +918,17 @@ def run_batch(ck, cases, use_model=True):
         lines += ls
     out = ck.driver(lines) if use_model else None
     for case, real, (a, n, names) in zip(cases, reals, spans):
-        nontriv = check_oracle(ck, case, real)
+        ood = out_of_domain(case)
+        if ood:
+            ck.count("out-of-domain/" + ood)
+            case.pop("_definitely_bad", None)
+            nontriv = False
+            exp0 = expected(case)               # only the time-independent error classes of get_filename remain claimed
+            if "fmt" in exp0 and "ctor" not in real and real["fmt"] != exp0["fmt"]:
+                ck.violation(classify("error-class"), f"error-class: get_filename gave {real['fmt']}, expected {exp0['fmt']}",
+                             {k: v for k, v in case.items() if k != "names" and not k.startswith("_")})
+        else:
+            nontriv = check_oracle(ck, case, real)
         case.pop("_definitely_bad", None)
         slim = {k: v for k, v in case.items() if not k.startswith("_")}
         tpl = tpl_str(case["toks"])
@@ -912,18 +946,26 @@ def run_batch(ck, cases, use_model=True):
         if not use_model or "ctor" in real:
             continue
         model = parse_model(out[a:a + n], case, names)
+        if ood:
+            # diagnostic only: a difference on out-of-domain input is recorded, it is not a verdict
+            def disagree(what, c, _ood=ood):
+                ck.count("out-of-domain/diagnostic-disagreement")
+                if len(ck.notes) < 20:
+                    ck.notes.append(f"diagnostic (out-of-domain, {_ood}): {what[:300]}")
+        else:
+            disagree = ck.disagree
         if "bad" in model:
-            ck.disagree(f"driver rejected the case: {model['bad']}", slim)
+            disagree(f"driver rejected the case: {model['bad']}", slim)
             continue
         if canon_fmt(model["fmt"]) != canon_fmt(real["fmt"]):
-            ck.disagree(f"get_filename: model {model['fmt']} vs code {real['fmt']}", slim)
+            disagree(f"get_filename: model {model['fmt']} vs code {real['fmt']}", slim)
             continue
         for rm, rr in zip(model["names"], real["names"]):
             rm, rr = canon(rm), canon(rr)
             if rm.get("parse") != rr.get("parse"):
-                ck.disagree(f"parse_filename({rr['name']!r}): model {rm.get('parse')} vs code {rr.get('parse')}", dict(slim, names=[rr["name"]]))
+                disagree(f"parse_filename({rr['name']!r}): model {rm.get('parse')} vs code {rr.get('parse')}", dict(slim, names=[rr["name"]]))
             if rm.get("info") != rr.get("info"):
-                ck.disagree(f"get_info({rr['name']!r}): model {rm.get('info')} vs code {rr.get('info')}", dict(slim, names=[rr["name"]]))
+                disagree(f"get_info({rr['name']!r}): model {rm.get('info')} vs code {rr.get('info')}", dict(slim, names=[rr["name"]]))
 
 
 def explore(ck, n, use_model=True):
